@@ -1166,9 +1166,11 @@ impl Blockchain {
                     WindingResult::Wind(current_wind_index, wind_failure, wallet_status) => {
                         wallet_update_status |= wallet_status;
 
+                        // after a failure it is the old chain which is being wound back
+                        let chain_to_wind = if wind_failure { old_chain } else { new_chain };
                         result = self
                             .wind_chain(
-                                new_chain,
+                                chain_to_wind,
                                 old_chain,
                                 current_wind_index,
                                 wind_failure,
@@ -1180,14 +1182,16 @@ impl Blockchain {
                     WindingResult::Unwind(
                         current_unwind_index,
                         wind_failure,
-                        old_chain,
+                        chain_to_unwind,
                         wallet_status,
                     ) => {
                         wallet_update_status |= wallet_status;
+                        // after a failure the chain to wind next is the old chain
+                        let chain_to_wind = if wind_failure { old_chain } else { new_chain };
                         result = self
                             .unwind_chain(
-                                new_chain,
-                                old_chain.as_slice(),
+                                chain_to_wind,
+                                chain_to_unwind.as_slice(),
                                 current_unwind_index,
                                 wind_failure,
                                 storage,
@@ -1202,16 +1206,19 @@ impl Blockchain {
                 }
             }
         } else if !new_chain.is_empty() {
-            let mut result = WindingResult::Unwind(0, true, old_chain.to_vec(), WALLET_NOT_UPDATED);
+            let mut result =
+                WindingResult::Unwind(0, false, old_chain.to_vec(), WALLET_NOT_UPDATED);
             loop {
                 #[cfg(saito_verif)]
                 crate::core::util::verif::step("blockchain.validate");
                 match result {
                     WindingResult::Wind(current_wind_index, wind_failure, wallet_status) => {
                         wallet_update_status |= wallet_status;
+                        // after a failure it is the old chain which is being wound back
+                        let chain_to_wind = if wind_failure { old_chain } else { new_chain };
                         result = self
                             .wind_chain(
-                                new_chain,
+                                chain_to_wind,
                                 old_chain,
                                 current_wind_index,
                                 wind_failure,
@@ -1223,14 +1230,16 @@ impl Blockchain {
                     WindingResult::Unwind(
                         current_wind_index,
                         wind_failure,
-                        old_chain,
+                        chain_to_unwind,
                         wallet_status,
                     ) => {
                         wallet_update_status |= wallet_status;
+                        // after a failure the chain to wind next is the old chain
+                        let chain_to_wind = if wind_failure { old_chain } else { new_chain };
                         result = self
                             .unwind_chain(
-                                new_chain,
-                                old_chain.as_slice(),
+                                chain_to_wind,
+                                chain_to_unwind.as_slice(),
                                 current_wind_index,
                                 wind_failure,
                                 storage,
@@ -1392,7 +1401,7 @@ impl Blockchain {
                 return WindingResult::FinishWithSuccess(wallet_updated);
             }
 
-            WindingResult::Wind(current_wind_index - 1, false, wallet_updated)
+            WindingResult::Wind(current_wind_index - 1, wind_failure, wallet_updated)
         } else {
             // we have had an error while winding the chain. this requires us to
             // unwind any blocks we have already wound, and rewind any blocks we
@@ -1407,6 +1416,10 @@ impl Blockchain {
                 block.id,
                 block.hash.to_hex()
             );
+            if wind_failure {
+                // we are already restoring the old chain, nothing more to fall back to
+                return WindingResult::FinishWithFailure;
+            }
             if current_wind_index == new_chain.len() - 1 {
                 // this is the first block we have tried to add
                 // and so we can just roll out the older chain
@@ -1601,6 +1614,10 @@ impl Blockchain {
             .on_chain_reorganization(block_id, block_hash, false, storage, configs)
             .await;
         if current_unwind_index == old_chain.len() - 1 {
+            if new_chain.is_empty() {
+                // nothing to wind back (the failed chain had no competing chain)
+                return WindingResult::FinishWithFailure;
+            }
             // start winding new chain
             //
             // new_chain --> adds the hashes in this order
